@@ -342,10 +342,29 @@ func ruleC15RemoveOrder(r *Run, p *Program, rule string) {
 		r.anchor(rule, "store to CompactionResult.CompactedSegments in Compact", found)
 	}
 	if g := p.Fn("(*pogreb.DB).compact"); r.anchor(rule, "(*pogreb.DB).compact", g != nil) {
-		okv := mustCallOnSuccess(g, func(in ssa.Instruction) bool {
+		w := &Walk{Fn: g, Stop: func(in ssa.Instruction) bool {
 			c, ok := in.(*ssa.Call)
 			return ok && calleeKey(&c.Call) == "(*pogreb.datalog).removeSegment"
-		})
+		}, SkipEdge: func(b *ssa.BasicBlock, k int) bool {
+			// a defensive "source segment is nil" guard has nothing to remove
+			c := edgeCond(b, k)
+			if c == nil {
+				return false
+			}
+			eq, ok := c.holdsEq()
+			if !ok || !eq {
+				return false
+			}
+			_, px := strip(c.X).(*ssa.Parameter)
+			return px && isNilConst(c.Y)
+		}}
+		w.From()
+		okv := true
+		for _, ret := range returnsOf(g) {
+			if w.Visited[ret] && !isFailureReturn(g, ret) {
+				okv = false
+			}
+		}
 		r.check(okv, rule, funcKey(g)+":success-removes", p.Pos(g.Pos()), "compact() returns nil only after removeSegment(source)", "compact() can return nil without removing the source segment")
 	}
 }
@@ -431,15 +450,17 @@ func ruleC04SizeMirror(r *Run, p *Program, rule string) {
 			}
 		})
 	}
-	r.universe(rule, n, 5)
+	r.universe(rule, n, 4)
 }
 
 // ---------- C19 ----------
 
-// decodedTaint computes the values of fn derived from integers decoded from file bytes (binary.LittleEndian.UintN).
-func decodedTaint(fn *ssa.Function) map[ssa.Value]bool {
+// decodedTaintAll computes, for all functions of package pogreb, the values derived from integers decoded from file bytes
+// (binary.*Endian.UintN), through arithmetic, conversions, phis, tuple extraction, module calls (arguments to parameters,
+// tainted returns to call results).
+func decodedTaintAll(p *Program) map[ssa.Value]bool {
 	t := map[ssa.Value]bool{}
-	changed := true
+	rets := map[*ssa.Function]map[int]bool{}
 	isSrc := func(v ssa.Value) bool {
 		c, ok := v.(*ssa.Call)
 		if !ok {
@@ -448,55 +469,92 @@ func decodedTaint(fn *ssa.Function) map[ssa.Value]bool {
 		k := calleeKey(&c.Call)
 		return strings.HasPrefix(k, "(encoding/binary.littleEndian).Uint") || strings.HasPrefix(k, "(encoding/binary.bigEndian).Uint")
 	}
-	for changed {
+	var funcs []*ssa.Function
+	for _, f := range p.ModuleFuncs("") {
+		if f.Pkg == p.MainS {
+			funcs = append(funcs, f)
+		}
+	}
+	changed := true
+	for iter := 0; changed && iter < 40; iter++ {
 		changed = false
-		instrsOf(fn, func(in ssa.Instruction) {
-			v, ok := in.(ssa.Value)
-			if !ok || t[v] {
-				return
-			}
-			mark := false
-			switch x := in.(type) {
-			case *ssa.Call:
-				if isSrc(x) {
-					mark = true
-				} else if f := x.Call.StaticCallee(); f != nil && inModule(f) {
-					for _, a := range x.Call.Args {
-						if t[a] {
+		for _, fn := range funcs {
+			instrsOf(fn, func(in ssa.Instruction) {
+				if r, ok := in.(*ssa.Return); ok {
+					for i, rv := range r.Results {
+						if t[rv] {
+							if rets[fn] == nil {
+								rets[fn] = map[int]bool{}
+							}
+							if !rets[fn][i] {
+								rets[fn][i] = true
+								changed = true
+							}
+						}
+					}
+					return
+				}
+				v, ok := in.(ssa.Value)
+				if !ok || t[v] {
+					return
+				}
+				mark := false
+				switch x := in.(type) {
+				case *ssa.Call:
+					if isSrc(x) {
+						mark = true
+					} else if f := x.Call.StaticCallee(); f != nil && inModule(f) {
+						if f.Signature.Results().Len() == 1 && rets[f][0] {
+							mark = true
+						}
+						// pure helpers: a tainted argument taints the (integer) result
+						if _, isInt, _ := intBits(x.Type(), false); isInt || true {
+							if _, _, ok := intBits(x.Type(), false); ok {
+								for _, a := range x.Call.Args {
+									if t[a] {
+										mark = true
+									}
+								}
+							}
+						}
+					}
+				case *ssa.BinOp:
+					mark = t[x.X] || t[x.Y]
+				case *ssa.UnOp:
+					mark = t[x.X]
+				case *ssa.Convert:
+					mark = t[x.X]
+				case *ssa.ChangeType:
+					mark = t[x.X]
+				case *ssa.Phi:
+					for _, e := range x.Edges {
+						if t[e] {
+							mark = true
+						}
+					}
+				case *ssa.Extract:
+					if c, ok := x.Tuple.(*ssa.Call); ok {
+						if f := c.Call.StaticCallee(); f != nil && inModule(f) && rets[f][x.Index] {
 							mark = true
 						}
 					}
 				}
-			case *ssa.BinOp:
-				mark = t[x.X] || t[x.Y]
-			case *ssa.UnOp:
-				mark = t[x.X]
-			case *ssa.Convert:
-				mark = t[x.X]
-			case *ssa.ChangeType:
-				mark = t[x.X]
-			case *ssa.Phi:
-				for _, e := range x.Edges {
-					if t[e] {
-						mark = true
-					}
+				if mark {
+					t[v] = true
+					changed = true
 				}
-			case *ssa.Extract:
-				mark = t[x.Tuple]
-			}
-			if mark {
-				t[v] = true
-				changed = true
-			}
-		})
+			})
+		}
 	}
 	return t
 }
 
 func ruleC19AllocBound(r *Run, p *Program, rule string) {
-	// functions reachable from recovery / segment iteration
+	// functions reachable from recovery / segment iteration, with their call strings
 	entries := []string{"(*pogreb.DB).recover", "(*pogreb.segmentIterator).next", "(*pogreb.recoveryIterator).next", "pogreb.newSegmentIterator"}
-	funcs := map[*ssa.Function]bool{}
+	t := decodedTaintAll(p)
+	sinks := 0
+	seen := map[string]bool{}
 	for _, ek := range entries {
 		f := p.Fn(ek)
 		if !r.anchor(rule, ek, f != nil) {
@@ -504,20 +562,15 @@ func ruleC19AllocBound(r *Run, p *Program, rule string) {
 		}
 		w, _ := allNodes(p, f)
 		for n := range w.Reached {
-			funcs[n.Ctx.Fn] = true
-		}
-	}
-	sinks := 0
-	for f := range funcs {
-		r.fn(funcKey(f))
-		t := decodedTaint(f)
-		instrsOf(f, func(in ssa.Instruction) {
+			fn := n.Ctx.Fn
+			r.fn(funcKey(fn))
+			in := n.In
 			var size ssa.Value
 			what := ""
 			switch x := in.(type) {
 			case *ssa.MakeSlice:
 				size, what = x.Len, "make([]byte, n)"
-				if t[x.Cap] {
+				if taintedIn(n.Ctx, x.Cap, t, 0) {
 					size = x.Cap
 				}
 			case *ssa.Call:
@@ -529,18 +582,76 @@ func ruleC19AllocBound(r *Run, p *Program, rule string) {
 					size, what = x.Call.Args[2], "io.CopyN(n)"
 				}
 			}
-			if size == nil || !t[size] {
-				return
+			if size == nil || !taintedIn(n.Ctx, size, t, 0) {
+				continue
 			}
+			key := funcKey(fn) + ":" + what
+			if seen[key] {
+				continue
+			}
+			seen[key] = true
 			sinks++
-			// guarded: reachable only via an edge on which (tainted expr) <= / < (untainted bound)
-			okv := controlledBy(f, in, func(c *Cond) bool { return boundsTainted(c, t) })
-			r.check(okv, rule, funcKey(f)+":"+what, p.Pos(in.Pos()),
+			// guarded in its own function, or the call chain leading here is guarded
+			okv := false
+			var at ssa.Instruction = in
+			for c := n.Ctx; c != nil && !okv; c = c.Parent {
+				if controlledBy(c.Fn, at, func(cd *Cond) bool { return boundsTainted(cd, t) }) {
+					okv = true
+				}
+				at = c.Site
+				if at == nil {
+					break
+				}
+			}
+			r.check(okv, rule, key, p.Pos(in.Pos()),
 				"the allocation sized by a length decoded from the file is reachable only after that length was compared with a bound not derived from file contents",
-				"an allocation is sized by a length field decoded from the segment file ("+valString(size)+") without first comparing it with the file length or a constant cap: a torn or garbage header makes the recovering Open allocate up to 2 GiB")
-		})
+				"an allocation is sized by a length field decoded from the segment file ("+valString(size)+") without first comparing it, free of wrap-around, with the file length or a constant cap: a torn or garbage header makes the recovering Open allocate up to 2 GiB")
+		}
 	}
 	r.universe(rule, sinks, 1)
+}
+
+// taintedIn reports whether v is derived from decoded file bytes, following parameters to the caller's arguments.
+func taintedIn(ctx *Ctx, v ssa.Value, t map[ssa.Value]bool, d int) bool {
+	if v == nil || d > 12 {
+		return false
+	}
+	if t[v] {
+		return true
+	}
+	switch x := v.(type) {
+	case *ssa.Parameter:
+		if ctx != nil && ctx.Parent != nil && ctx.Site != nil && ctx.Fn == x.Parent() {
+			cc := callOf(ctx.Site)
+			idx := paramIndex(x)
+			if !cc.IsInvoke() && idx >= 0 && idx < len(cc.Args) {
+				return taintedIn(ctx.Parent, cc.Args[idx], t, d+1)
+			}
+		}
+	case *ssa.BinOp:
+		return taintedIn(ctx, x.X, t, d+1) || taintedIn(ctx, x.Y, t, d+1)
+	case *ssa.Convert:
+		return taintedIn(ctx, x.X, t, d+1)
+	case *ssa.ChangeType:
+		return taintedIn(ctx, x.X, t, d+1)
+	case *ssa.Phi:
+		for _, e := range x.Edges {
+			if taintedIn(ctx, e, t, d+1) {
+				return true
+			}
+		}
+	case *ssa.Call:
+		if f := x.Call.StaticCallee(); f != nil && inModule(f) {
+			if _, _, ok := intBits(x.Type(), false); ok {
+				for _, a := range x.Call.Args {
+					if taintedIn(ctx, a, t, d+1) {
+						return true
+					}
+				}
+			}
+		}
+	}
+	return false
 }
 
 // boundsTainted: on this edge, tainted <= untainted (or <) holds.
